@@ -8,7 +8,7 @@
    [load] = the loader's classification at restart; [serves_all] = every document is served, from
    intact .docs/.meta or through a complete index over the document file it was built for. *)
 From Coq Require Import Lia.
-From C08 Require Import Model ProofsA ProofsB ProofsC.
+From C08 Require Import Model CaseDefs ProofsA ProofsB ProofsC ProofsD.
 
 (* Crash at any point of a seal (fault-free or with any write fault), the interrupted write torn
    at any length, then any power loss: the restarted store serves every document, and the directory
@@ -76,6 +76,39 @@ Theorem C08_originals_last :
 Proof. exact originals_last. Qed.
 Print Assumptions C08_originals_last.
 
+(* ---------------- the spec checker of the correspondence run holds on the model ---------------- *)
+(* [case_spec_ok] (CaseDefs.v) is what turns an implementation output into a VIOLATION with a replay.
+   The four theorems below say: fed with the MODEL's outputs it is true for every input - so an
+   implementation that agrees with the model can never fail it, and a spec failure is a real
+   departure from the proved behaviour. *)
+Theorem C08_spec_holds_on_model_crash :
+  forall p init j n keep,
+    inv p (init_fs init) ->
+    let s := crash_state (fst (seal p None)) (init_fs init) j n (keep_fn keep) in
+    let r := load s in
+    case_spec_ok (CCrash p init j n keep (sizes s) (fst r) (names (snd r)) (serves_all p r)) = true.
+Proof. exact spec_crash_model. Qed.
+Print Assumptions C08_spec_holds_on_model_crash.
+
+Theorem C08_spec_holds_on_model_fault :
+  forall p k n,
+    let r := seal p (Some (mkFault IndexTmp k n)) in
+    case_spec_ok (CFault p k n (res_is_err (snd r)) (writes_of IndexTmp (fst r))) = true.
+Proof. exact spec_fault_model. Qed.
+Print Assumptions C08_spec_holds_on_model_fault.
+
+Theorem C08_spec_holds_on_model_trace :
+  forall p, case_spec_ok (CTrace p (fst (seal p None)) true) = true.
+Proof. exact spec_trace_model. Qed.
+Print Assumptions C08_spec_holds_on_model_trace.
+
+Theorem C08_spec_holds_on_model_limit :
+  forall p init limit,
+    let r := seal p (limit_fault p limit) in
+    case_spec_ok (CLimit p init limit (res_is_err (snd r)) (fst r)) = true.
+Proof. exact spec_limit_model. Qed.
+Print Assumptions C08_spec_holds_on_model_limit.
+
 (* ---------------- non-vacuity and documentation ---------------- *)
 Definition ex_plan (sk : bool) : plan :=
   mkPlan sk [67]%N [(KInfo, [684]%N); (KTokens, [35]%N); (KTokenTable, [71]%N); (KPositions, [9]%N);
@@ -96,6 +129,11 @@ Example C08_crash_after_publish_is_sealed :
   /\ fst (load (crash_state (fst (seal (ex_plan true) None)) ex_init 17 0 (fun _ => 0%N))) = LSealed
   /\ fst (load (crash_state (fst (seal (ex_plan true) None)) ex_init 16 0 (fun _ => 0%N))) = LActive.
 Proof. vm_compute. repeat split. Qed.
+
+Example C08_init_fs_inv_witness :
+  inv (ex_plan false) (init_fs [(Docs, 67%N); (Meta, 129%N); (Sdocs, 67%N); (IndexTmp, 30%N)])
+  /\ inv (ex_plan true) (init_fs [(Docs, 67%N); (Meta, 129%N); (Index, 1400%N)]).
+Proof. repeat split. Qed.
 
 (* serves_all is not trivially true: a published index that misses its last write does not serve *)
 Example C08_serves_all_can_fail :
